@@ -5,8 +5,8 @@
    Tftp/Transfer.v has no failing sendto towards the client.
    - _send_data_block sends inside its try: a failed send uses up one try and the block is sent
      again; after 1 + max_retries failed tries the transfer is given up.
-   - _send_options_ack sends outside its try: a failed OACK send ends the transfer at once
-     (recorded as the behaviour of the code; the property does not ask for it).
+   - _send_options_ack does the same since the repair of D23 (before it, it sent outside its try
+     and a failed OACK send ended the transfer at once).
    Sends are numbered 0, 1, 2, ... in the order of the sendto calls for OACK/DATA packets;
    [faults] lists the numbers of the calls that raise.  Definitions only. *)
 From Coq Require Import String.
@@ -37,22 +37,29 @@ Fixpoint data_blocks (faults : list nat) (retries blk n idx : nat) : list attemp
            else (l, false)
   end.
 
+(* The OACK is handled like a block numbered 0 (since the repair of D23; before it the OACK was sent
+   outside the try of _send_options_ack and a failed send ended the transfer at once: variant
+   [oack_no_retry]). *)
+Definition to_oack (a : attempt) : attempt := match a with AData O ok => AOack ok | _ => a end.
+Definition of_oack (a : attempt) : attempt := match a with AOack ok => AData O ok | _ => a end.
+
 (* the sendto calls for OACK/DATA packets in order, and whether every block was acknowledged *)
-Definition run_send (c : scase) : list attempt * bool :=
+Definition run_send_v (oack_no_retry : bool) (c : scase) : list attempt * bool :=
   if s_oack c then
-    if faulty (s_faults c) 0 then ([AOack false], false)
-    else let '(l, ok) := data_blocks (s_faults c) (s_retries c) 1 (s_blocks c) 1 in (AOack true :: l, ok)
+    if oack_no_retry && faulty (s_faults c) 0 then ([AOack false], false)
+    else let '(l, ok) := data_blocks (s_faults c) (s_retries c) 0 (S (s_blocks c)) 0 in (map to_oack l, ok)
   else data_blocks (s_faults c) (s_retries c) 1 (s_blocks c) 0.
+Definition run_send := run_send_v false.
 
 (* ---------- the checker: what the property says about such a run ----------
-   "any pattern of lost ... packets that stays within the retry budget": a DATA packet whose send
-   fails is lost before it leaves; as long as no block fails 1 + max_retries times in a row the
-   client gets every block, in order, and a failed try is followed by the same block again. *)
+   "any pattern of lost ... packets that stays within the retry budget": a packet whose send fails
+   is lost before it leaves; as long as no packet fails 1 + max_retries times in a row the client
+   gets the OACK (when there is one) and every block, in order, and a failed try is followed by the
+   same packet again.  The checker reads an OACK call as a call for block 0. *)
 Definition is_data_of (blk : nat) (a : attempt) : bool :=
   match a with AData b _ => Nat.eqb b blk | _ => false end.
-Definition failed_data (a : attempt) : bool := match a with AData _ false => true | _ => false end.
 
-(* number of failed sends of block [blk] directly before its first successful one (or the end) *)
+(* number of failed sends of block [blk] *)
 Fixpoint fails_of (blk : nat) (l : list attempt) : nat :=
   match l with
   | AData b false :: r => if Nat.eqb b blk then S (fails_of blk r) else fails_of blk r
@@ -62,7 +69,7 @@ Fixpoint fails_of (blk : nat) (l : list attempt) : nat :=
 Definition delivered (l : list attempt) : list nat :=
   flat_map (fun a => match a with AData b true => [b] | _ => [] end) l.
 
-(* after a failed send of block b: the next call sends block b again, unless the budget is used up *)
+(* after a failed send of block b the next call sends block b again (or there is no next call) *)
 Fixpoint retried (retries : nat) (l : list attempt) : bool :=
   match l with
   | AData b false :: r =>
@@ -74,18 +81,18 @@ Fixpoint retried (retries : nat) (l : list attempt) : bool :=
   | [] => true
   end.
 
-Definition within_budget (retries n : nat) (l : list attempt) : bool :=
-  forallb (fun b => Nat.leb (fails_of b l) retries) (seq 1 n).
+Definition within_budget (retries first n : nat) (l : list attempt) : bool :=
+  forallb (fun b => Nat.leb (fails_of b l) retries) (seq first n).
 
-Definition oack_failed (l : list attempt) : bool :=
-  match l with AOack false :: _ => true | _ => false end.
-
-Definition holds_send (c : scase) (o : list attempt * bool) : list string :=
+Definition holds_core (retries first n : nat) (o : list attempt * bool) : list string :=
   let '(l, done) := o in
-  (if retried (s_retries c) l || (negb (within_budget (s_retries c) (s_blocks c) l)) then []
+  (if retried retries l || (negb (within_budget retries first n l)) then []
    else ["C01:failed_send_is_retried"%string]) ++
-  (if oack_failed l then [] else
-   if within_budget (s_retries c) (s_blocks c) l
-   then (if done && (if list_eq_dec Nat.eq_dec (delivered l) (seq 1 (s_blocks c)) then true else false) then []
+  (if within_budget retries first n l
+   then (if done && (if list_eq_dec Nat.eq_dec (delivered l) (seq first n) then true else false) then []
          else ["C01:delivers_under_send_failures_within_budget"%string])
    else (if done then ["C01:gives_up_when_send_budget_is_exhausted"%string] else [])).
+
+Definition holds_send (c : scase) (o : list attempt * bool) : list string :=
+  if s_oack c then holds_core (s_retries c) 0 (S (s_blocks c)) (map of_oack (fst o), snd o)
+  else holds_core (s_retries c) 1 (s_blocks c) (map of_oack (fst o), snd o).
